@@ -383,7 +383,7 @@ impl Component for HubC {
         // Closed with a backlog: a subscriber whose queue is EXACTLY full closes its receiver with `Receiver::close()`
         // (`shut`: nothing drained, no permit returned) - the next publish on its topic must prune it all the same,
         // and must keep serving the live subscriber next to it.
-        if idx % 20 == 3 {
+        if idx % 20 == 17 {
             let topic = Self::gen_topic(rng);
             let cap = rng.range(1, 4);
             ops.push(format!("conn {cap}"));
@@ -470,6 +470,7 @@ impl Component for HubC {
         // Real parallelism (publisher thread vs. unsubscribing thread) on a private hub.
         if idx % 400 == 3 {
             ops.push(format!("par {} {}", rng.range(16, 96), if matches!(_tier, Tier::Quick) { 150 } else { 400 }));
+            ops.push(format!("prioburst {}", if matches!(_tier, Tier::Quick) { 25 } else { 100 }));
             ops.push(format!("sockbacklog {}", rng.pick(&[512usize, 256, 512])));
             ops.push(format!("subfull {}", rng.pick(&[1usize, 1, 2, 8, 128])));
             ops.push(format!("ctlunsub {} {}", rng.pick(&[0usize, 7, 8, 9, 95, 98, 990, 1]), rng.pick(&[2usize, 3, 5, 12, 25])));
@@ -765,6 +766,16 @@ impl Component for HubC {
                 }
                 if let Some(desc) = par_stress(nsubs, rounds, mon) {
                     mon.fail(P, "after-unsubscribe-parallel", desc);
+                }
+                "ok".into()
+            }
+            ["prioburst", rounds] => {
+                let Ok(rounds) = rounds.parse::<usize>() else { return "bad-op".into() };
+                if rounds == 0 || rounds > 10_000 {
+                    return "bad-op".into();
+                }
+                if let Some(desc) = prio_burst(rounds, mon) {
+                    mon.fail(P, "priority-events-out-of-order", desc);
                 }
                 "ok".into()
             }
@@ -1079,6 +1090,87 @@ fn socket_backlog(kb: usize, mon: &mut Mon) -> Option<String> {
             r
         }
     }
+}
+
+/// The REAL priority-sidecar listener (`priority_listener::spawn_listener`) publishing `priority.window` events into a
+/// hub on a MULTI-THREAD runtime (what `main` uses), one subscriber, bursts of six hints from one loopback socket (UDP
+/// keeps their order).  C20: a subscriber receives the events of its topic in publication order, each at most once -
+/// the listener publishes one event per accepted datagram, in the order it accepted them.  One-sided: the unchanged
+/// listener awaits each publish before it reads the next datagram, so it cannot reorder whatever the scheduler does;
+/// `None` = nothing wrong seen (also when the environment does not let the listener come up).
+fn prio_burst(rounds: usize, mon: &mut Mon) -> Option<String> {
+    use srtla_core::priority::CriticalWindow;
+    let rt = tokio::runtime::Builder::new_multi_thread().worker_threads(4).enable_all().build().ok()?;
+    let port = {
+        let probe = std::net::UdpSocket::bind("127.0.0.1:0").ok()?;
+        probe.local_addr().ok()?.port()
+    };
+    let addr: std::net::SocketAddr = format!("127.0.0.1:{port}").parse().ok()?;
+    let hub = SubscriptionHub::new();
+    let state = CriticalWindow::new();
+    let (tx, mut rx) = mpsc::channel::<String>(4096);
+    let sub_id = rt.block_on(hub.subscribe("priority.window", tx));
+    let handle = {
+        let _g = rt.enter();
+        srtla_send::priority_listener::spawn_listener(addr, state.clone(), Some(hub.clone()))
+    };
+    let sock = std::net::UdpSocket::bind("127.0.0.1:0").ok()?;
+    // wait until the listener is bound: a malformed datagram is counted
+    let t0 = std::time::Instant::now();
+    while state.malformed_datagrams() == 0 {
+        let _ = sock.send_to(&[0u8, 1, 2], addr);
+        std::thread::sleep(Duration::from_millis(5));
+        if t0.elapsed() > Duration::from_secs(3) {
+            mon.count("prioburst-listener-not-up");
+            handle.abort();
+            return None;
+        }
+    }
+    let mut found = None;
+    let mut next: u32 = 1;
+    'rounds: for round in 0..rounds {
+        let first = next;
+        for _ in 0..6 {
+            let mut d = vec![0xc1u8];
+            d.extend_from_slice(&next.to_be_bytes());
+            let _ = sock.send_to(&d, addr);
+            next += 1;
+        }
+        let mut got: Vec<u64> = Vec::new();
+        let t0 = std::time::Instant::now();
+        while got.len() < 6 && t0.elapsed() < Duration::from_secs(3) {
+            match rx.try_recv() {
+                Ok(line) => {
+                    let v: serde_json::Value = serde_json::from_str(&line).unwrap_or(serde_json::Value::Null);
+                    let p = &v["params"];
+                    if p["subscription_id"].as_str() != Some(sub_id.as_str()) {
+                        found = Some(format!("round {round}: event tagged {} instead of {sub_id}", p["subscription_id"]));
+                        break 'rounds;
+                    }
+                    got.push(p["data"]["window_ms"].as_u64().unwrap_or(u64::MAX));
+                }
+                Err(_) => std::thread::sleep(Duration::from_micros(200)),
+            }
+        }
+        let want: Vec<u64> = (first..first + 6).map(u64::from).collect();
+        if got.len() == 6 {
+            mon.count("prioburst-round");
+            if got != want {
+                found = Some(format!(
+                    "round {round}: six priority hints {want:?} were accepted in that order by the real listener (one loopback socket), the `priority.window` subscriber received {got:?}"
+                ));
+                break;
+            }
+        } else {
+            // datagram loss on a loaded machine: not judged, resynchronise
+            mon.count("prioburst-round-incomplete");
+            std::thread::sleep(Duration::from_millis(20));
+            while rx.try_recv().is_ok() {}
+        }
+    }
+    handle.abort();
+    rt.shutdown_timeout(Duration::from_millis(200));
+    found
 }
 
 fn par_stress(nsubs: usize, rounds: usize, mon: &mut Mon) -> Option<String> {
